@@ -101,3 +101,35 @@ pub fn memfs_entry(path: &str, dir: bool, link_target: Option<&str>, mode: u32) 
     }
     Ok(opts._mode(mode).build().upcast())
 }
+
+/// Scheduling hook at every lock acquisition: when enabled, a thread about to take the Memfs lock first
+/// yields the processor a pseudo-random number of times (0..n), widening the windows between the critical
+/// sections of one call so that a concurrency harness can observe interleavings there.
+pub static GUARD_YIELD: std::sync::atomic::AtomicUsize = std::sync::atomic::AtomicUsize::new(0);
+
+thread_local! {
+    static GUARD_RNG: std::cell::Cell<u64> = std::cell::Cell::new(0x9E37_79B9_7F4A_7C15);
+}
+
+/// Seed the calling thread's yield sequence
+pub fn guard_seed(seed: u64) {
+    GUARD_RNG.with(|r| r.set(seed | 1));
+}
+
+/// Called by `read_guard` / `write_guard` before the lock is requested
+pub fn guard_point() {
+    let n = GUARD_YIELD.load(std::sync::atomic::Ordering::Relaxed);
+    if n > 0 {
+        let k = GUARD_RNG.with(|r| {
+            let mut x = r.get();
+            x ^= x << 13;
+            x ^= x >> 7;
+            x ^= x << 17;
+            r.set(x);
+            (x % n as u64) as usize
+        });
+        for _ in 0..k {
+            std::thread::yield_now();
+        }
+    }
+}
